@@ -7,9 +7,9 @@ wt=/tmp/wt/$wid
 out=/tmp/wt/$wid-out
 export CARGO_NET_OFFLINE=true
 echo "=== $wid"
-(cd "$wt" && git diff --stat | tail -1)
+(cd "$wt" && git diff > /tmp/wt/$wid-actual.diff; if cmp -s /tmp/wt/$wid-actual.diff "$out/patch.diff"; then echo "worktree diff == patch.diff"; else echo "WARNING: worktree diff differs from patch.diff"; fi; git diff --stat | tail -1)
 (cd "$wt" && CARGO_TARGET_DIR=/tmp/wt/$wid-target cargo test --workspace --offline --lib 2>&1 | grep -E "^test result|FAILED|error(\[|:)" | awk '{p+=$4; f+=$6} END {print "tests with change: passed",p,"failed",f}')
 (cd "$out/demo" && CARGO_TARGET_DIR=/tmp/wt/$wid-target cargo run --offline --release >/tmp/wt/$wid-demo-with.log 2>&1; echo "demo with change rc=$?"; tail -2 /tmp/wt/$wid-demo-with.log)
-(cd "$wt" && git stash -q)
+(cd "$wt" && git apply -R "$out/patch.diff")
 (cd "$out/demo" && CARGO_TARGET_DIR=/tmp/wt/$wid-target cargo run --offline --release >/tmp/wt/$wid-demo-without.log 2>&1; echo "demo without change rc=$?"; tail -2 /tmp/wt/$wid-demo-without.log)
-(cd "$wt" && git stash pop -q)
+(cd "$wt" && git apply "$out/patch.diff")
